@@ -64,9 +64,13 @@ func (m *Mutex) Unlock() {
 	s.maybePreempt(t, "unlock")
 }
 
+// RWMutex mirrors sync.RWMutex including its writer preference: while a
+// writer is waiting for the lock, new readers block - so a recursive read lock
+// deadlocks exactly as it does with the real type.
 type RWMutex struct {
-	m sync.RWMutex
-	w waitq
+	m  sync.RWMutex
+	w  waitq
+	ww int // writers waiting (guarded by the scheduler lock)
 }
 
 //go:norace
@@ -78,9 +82,21 @@ func (m *RWMutex) Lock() {
 	}
 	t := s.enter()
 	s.maybePreempt(t, "lock")
+	waiting := false
 	for !m.m.TryLock() {
-		s.addWaiter(&m.w, t)
+		s.lock()
+		if !waiting {
+			m.ww++
+			waiting = true
+		}
+		m.w.ts = push(m.w.ts, t)
+		s.unlock()
 		s.parkAs(t, "lock.wait", stWaiting)
+	}
+	if waiting {
+		s.lock()
+		m.ww--
+		s.unlock()
 	}
 }
 
@@ -105,8 +121,19 @@ func (m *RWMutex) RLock() {
 	}
 	t := s.enter()
 	s.maybePreempt(t, "rlock")
-	for !m.m.TryRLock() {
-		s.addWaiter(&m.w, t)
+	for {
+		s.lock()
+		blocked := m.ww > 0
+		if blocked {
+			m.w.ts = push(m.w.ts, t)
+		}
+		s.unlock()
+		if !blocked {
+			if m.m.TryRLock() {
+				return
+			}
+			s.addWaiter(&m.w, t)
+		}
 		s.parkAs(t, "rlock.wait", stWaiting)
 	}
 }
@@ -124,7 +151,8 @@ func (m *RWMutex) RUnlock() {
 }
 
 //go:norace
-func (m *RWMutex) TryLock() bool  { Yield("trylock"); return m.m.TryLock() }
+func (m *RWMutex) TryLock() bool { Yield("trylock"); return m.m.TryLock() }
+
 //go:norace
 func (m *RWMutex) TryRLock() bool { Yield("tryrlock"); return m.m.TryRLock() }
 
